@@ -91,6 +91,7 @@ pub fn scenarios() -> Vec<(&'static str, fn() -> Option<String>)> {
         ("leftover-staging-longer-than-rewrite (C10)", sc_leftover_staging),
         ("hash-mismatch-changes-nothing (C10)", sc_hash_mismatch),
         ("get-announces-what-it-streams (C10, H11)", sc_get_consistent),
+        ("lock-file-is-not-client-addressable (C03, H12)", sc_lock_file_addressable),
     ]
 }
 
@@ -281,6 +282,38 @@ fn sc_get_consistent() -> Option<String> {
     };
     let _ = s1.child.kill(); let _ = s2.close_and_wait(3);
     res
+}
+
+fn sc_lock_file_addressable() -> Option<String> {
+    // schedule: S2 has OPENED the commit lock file and is delayed (strace) before flock(); meanwhile a client asks a third
+    // server to Delete `.copia/commit.lock` (expected = hash of the empty file). S2 then locks the unlinked inode, and is
+    // delayed again before its rename; S3 arrives, creates a NEW lock file, and runs its whole critical section inside S2's.
+    let r = root("lockfile"); std::fs::create_dir_all(r.join(".copia")).ok()?; std::fs::write(r.join("doc"), b"X").ok()?;
+    std::fs::write(r.join(".copia/commit.lock"), b"").ok()?;
+    let b = std::env::var("COPIA_BIN").ok()?;
+    let mut c = Command::new("strace").args(["-f", "-qq", "-o", "/dev/null", "-e", "trace=flock,rename,renameat,renameat2",
+            "-e", "inject=flock:delay_enter=1500000:when=1", "-e", "inject=rename,renameat,renameat2:delay_enter=1500000:when=1"])
+        .arg(&b).arg("serve").arg(&r).stdin(Stdio::piped()).stdout(Stdio::piped()).stderr(Stdio::null()).spawn().ok()?;
+    let mut s2 = Srv { w: c.stdin.take()?, r: BufReader::new(c.stdout.take()?), child: c };
+    s2.magic();
+    s2.send(&Request::Put { path: "doc".into(), expected: Some(h(b"X")), len: 3, hash: h(b"TWO") }); s2.raw(b"TWO");
+    std::thread::sleep(Duration::from_millis(600));        // S2 holds an open descriptor on the lock file, not yet the lock
+    let mut sd = Srv::start(&r)?; sd.magic();
+    sd.send(&Request::Delete { path: ".copia/commit.lock".into(), expected: Some(h(b"")) });
+    let del = sd.recv(10);
+    let _ = sd.close_and_wait(5);
+    std::thread::sleep(Duration::from_millis(1400));       // S2 now holds the (unlinked) lock and sits before its rename
+    let mut s3 = Srv::start(&r)?; s3.magic();
+    let r3 = s3.put("doc", Some(h(b"X")), b"THREE");
+    let r2 = s2.recv(10);
+    let _ = s3.close_and_wait(5); let _ = s2.close_and_wait(5);
+    let n = [&r2, &r3].iter().filter(|x| matches!(x, Some(Response::PutResult { committed: true, .. }))).count();
+    if n == 2 {
+        let live = std::fs::read(r.join("doc")).ok().map(|b| String::from_utf8_lossy(&b).into_owned());
+        let kept = live_files(&r).iter().any(|(p, b)| p.contains(".conflict-") && (b == b"THREE" || b == b"TWO"));
+        return Some(format!("a client Delete of `.copia/commit.lock` was served ({del:?}); afterwards two servers both committed Put(doc, expected = hash of X): both acknowledged committed:true, live = {live:?}, conflict copy kept = {kept} - an acknowledged write was lost (the commit lock file is client-addressable) (C03)"));
+    }
+    None
 }
 
 pub fn search(contract: &str, as_twin: bool) -> i32 {
